@@ -133,7 +133,7 @@ package dotgit
 //gvc:  sink Truncate requires compared: old != nil && ref != nil && forall(k, 0, 32, ref.h.hash[k] == old.h.hash[k])
 //gvc:  sink Truncate requires samekind: ref.t == old.t
 //gvc:  sink Truncate requires sametarget: ref.t == 2 ==> bytes_eq(ref.target, old.target)
-//gvc:  sink Truncate requires whole: false
+//gvc:  sink Truncate requires [C16] whole: false
 //gvc:  kf F47 whole: true
 //gvc:  grants checked: result == nil ==> f.#checked
 //gvc:end
@@ -155,7 +155,7 @@ package dotgit
 //gvc:  sink OpenFile requires safe: spec_refsafe(strid(arg0))
 //gvc:  sink OpenFile requires notrunc: arg1 & 0x200 == 0
 //gvc:  sink Truncate requires locked: ok ==> f.#locked
-//gvc:  sink Truncate requires whole: false
+//gvc:  sink Truncate requires [C16] whole: false
 //gvc:  kf F47 whole: true
 //gvc:  sink Write requires emptied: old == nil ==> calls("Truncate") >= 1
 //gvc:  sink Write requires locked: ok ==> f.#locked
